@@ -435,6 +435,10 @@ impl PacketContents {
         self.num_chunks += 1;
     }
     fn can_fit_chunk(&self, data: &[u8], vital: bool) -> bool {
+        // The chunk count in the packet header is a single byte.
+        if self.num_chunks == u8::MAX {
+            return false;
+        }
         // current size + chunk header + chunk length
         self.data.len() + protocol::chunk_header_size(vital) + data.len() <= MAX_PAYLOAD
     }
